@@ -38,6 +38,8 @@ package store
 //@ ghost field logid map[int]NodeID
 //@ ghost field logamt map[int]int
 //@ ghost field loglen int
+// logacct: for operations on a wallet account, the account
+//@ ghost field logacct map[int]Account
 // attempts : number of balance-changing calls made on the store, successful or not
 //@ ghost field attempts int
 //@ ghost var effects int
@@ -94,9 +96,10 @@ package store
 //@ ensures [fail]    err != nil ==> this.acredit == old(this.acredit) && this.total == old(this.total)
 //@ ensures [frame]   this.tcredit == old(this.tcredit) && sameLinks(this) && sameDeposits(this)
 //@ defines [log-ok]   err == nil ==> this.loglen == old(this.loglen) + 1 && effects == old(effects) + 1
-//@ defines [log-fail] err != nil ==> this.loglen == old(this.loglen) && effects == old(effects)
+//@                        && this.logamt == upd(old(this.logamt), old(this.loglen), bigval(credit)) && this.logacct == upd(old(this.logacct), old(this.loglen), account)
+//@ defines [log-fail] err != nil ==> this.loglen == old(this.loglen) && effects == old(effects) && this.logamt == old(this.logamt) && this.logacct == old(this.logacct)
 //@ defines [attempt]  this.attempts == old(this.attempts) + 1
-//@ modifies this.acredit, this.total, this.loglen, this.attempts, effects
+//@ modifies this.acredit, this.total, this.loglen, this.logamt, this.logacct, this.attempts, effects
 
 // ---- AccountStore ---------------------------------------------------------------------
 
